@@ -69,9 +69,15 @@ def call_method(ex, st, recv, name, args, kwargs, node):
         yield from list_method(ex, st, recv, name, args, kwargs, node)
         return
     if type(recv).__name__ == "VPList":
+        from . import plist
         if name == "append" and len(args) == 1 and isinstance(args[0], VStr):
             ex.check_frame(st, recv, node)
-            recv.chunks = recv.chunks + [("e", args[0])]
+            plist.l_append(recv, args[0])
+            yield NONE, st
+            return
+        if name == "reverse" and not args:
+            ex.check_frame(st, recv, node)
+            recv.rev = not recv.rev
             yield NONE, st
             return
         raise Unsupported(f"split-list.{name}")
